@@ -1,0 +1,17 @@
+//go:build verif
+
+package term
+
+import "git.sr.ht/~rockorager/vaxis"
+
+// Hook for property C18 (SGR codecs).  Add-only, guarded by the build tag
+// "verif".
+
+// VerifC18SGR sets the pen of a fresh emulator to st, runs the emulator's SGR
+// consumer on params and returns the pen.
+func VerifC18SGR(params [][]int, st vaxis.Style) vaxis.Style {
+	vt := New()
+	vt.cursor.Style = st
+	vt.sgr(params)
+	return vt.cursor.Style
+}
